@@ -13,12 +13,17 @@
 //   SPLIT <id> <learner> <criterion> | g1,g2,...               groups of the selected samples
 //   SCALE <id> <learner> <criterion> | s1,s2,.. | p11,...      predictions after scale(s)
 //   MERGE <id> | W;W;... | W;W;...                             learners before / after wlearner::merge
+//   SUB <id> <learner> <criterion> | p1,p2,.. | g1,g2,..       groups of a sub-list (positions of the fit list; `-` = empty list)
+//   CRASH-CONTEXT ...    (signal handler) the operation during which the process died
 //   OBS <what> ...       observations outside the clauses of C10 (reported in the evidence, never a violation)
 //   FAIL <clause> <id> ...                                     direct property violations
 //   DONE cases=<n> ...
 // Usage: c10_wlearner quick|thorough [cases [chunk [only_case]]]
 #include "common.h"
 #include <algorithm>
+#include <csignal>
+#include <cstring>
+#include <unistd.h>
 #include <map>
 #include <nano/dataset.h>
 #include <nano/dataset/hash.h>
@@ -1405,6 +1410,143 @@ void ext_check_tree_fit(gen_t& g, const ctx_t& x, wlearner_criterion crit)
     ext_check_tree(x, "dtree-fit", crit_name(crit), *tw);
 }
 
+
+// ---- crash context: what the library was asked to do when the process died (printed by the signal handler, so that a crash
+// yields a concrete replay naming the learner and the sample list, as for `probe-dstep-empty`) ---------------------------------
+char g_context[8192] = "";
+
+void set_context(const std::string& what)
+{
+    std::snprintf(g_context, sizeof(g_context), "CRASH-CONTEXT %s\n", what.c_str());
+}
+
+void clear_context()
+{
+    g_context[0] = 0;
+}
+
+extern "C" void crash_handler(int sig)
+{
+    if (g_context[0] != 0)
+    {
+        const auto len = std::strlen(g_context);
+        if (write(1, g_context, len) < 0) {}
+    }
+    std::signal(sig, SIG_DFL);
+    raise(sig);
+}
+
+long ext_sublist_checks = 0, ext_sublist_lists = 0;
+
+// every fitted learner is ALSO asked to predict and split arbitrary sample lists: the empty list, single samples, random strict
+// subsets, lists that leave whole groups / branches empty. Predictions depend only on the sample: the rows must be bit-identical
+// to the rows of the prediction on the fit list, the groups identical, non-members unassigned.
+void check_sublists(gen_t& g, const ctx_t& x, const std::string& name, const char* crit, const wlearner_t& w)
+{
+    const auto& dataset = *x.dataset;
+    const auto& samples = x.samples;
+    const auto  n       = samples.size();
+    const auto  no      = static_cast<tensor_size_t>(x.g.no);
+    const auto  tag     = x.id + " " + name + " " + crit;
+    const bool  is_tree = dynamic_cast<const dtree_wlearner_t*>(&w) != nullptr;
+    ext_sublist_checks++;
+
+    set_context(tag + " predict/split on the fit list " + wstr(w));
+    const auto P = w.predict(dataset, samples);
+    const auto C = w.split(dataset, samples);
+    clear_context();
+
+    std::vector<std::vector<tensor_size_t>> lists;
+    lists.emplace_back(); // the empty list
+    if (n > 0)
+    {
+        if (is_tree && n <= 12)
+            for (tensor_size_t i = 0; i < n; ++i) lists.push_back({i});
+        else
+        {
+            lists.push_back({0});
+            for (int k = 0; k < (is_tree ? 8 : 2); ++k) lists.push_back({static_cast<tensor_size_t>(g.rng.range(0, n - 1))});
+        }
+        for (int k = 0; k < (is_tree ? 3 : 2); ++k)
+        {
+            std::vector<tensor_size_t> l;
+            for (tensor_size_t i = 0; i < n; ++i)
+                if (g.coin(50)) l.push_back(i);
+            if (static_cast<tensor_size_t>(l.size()) == n) l.pop_back();
+            for (size_t i = l.size(); i > 1; --i) std::swap(l[i - 1], l[static_cast<size_t>(g.rng.range(0, static_cast<int64_t>(i) - 1))]);
+            lists.push_back(l);
+        }
+        // lists that leave a group (leaf, side, label group) empty / keep only one group / only unassigned samples
+        std::set<tensor_size_t> groups;
+        for (tensor_size_t i = 0; i < n; ++i) groups.insert(C.group(samples(i)));
+        int used = 0;
+        for (const auto gr : groups)
+        {
+            if (++used > (is_tree ? 6 : 3)) break;
+            std::vector<tensor_size_t> only, without;
+            for (tensor_size_t i = 0; i < n; ++i) (C.group(samples(i)) == gr ? only : without).push_back(i);
+            lists.push_back(only);
+            if (!without.empty()) lists.push_back(without);
+        }
+    }
+    int printed = 0;
+    for (const auto& l : lists)
+    {
+        ext_sublist_lists++;
+        indices_t   sub(static_cast<tensor_size_t>(l.size()));
+        std::string ids, pos;
+        for (size_t j = 0; j < l.size(); ++j)
+        {
+            sub(static_cast<tensor_size_t>(j)) = samples(l[j]);
+            ids += (j ? "," : "") + std::to_string(samples(l[j]));
+            pos += (j ? "," : "") + std::to_string(l[j]);
+        }
+        set_context(tag + " predict/split on the sample list [" + ids + "] (" + std::to_string(l.size()) + " of the " + std::to_string(dataset.samples()) +
+                    " samples of the dataset; positions [" + pos + "] of the fit list) " + wstr(w));
+        std::string why, gs;
+        try
+        {
+            const auto p2 = w.predict(dataset, sub);
+            const auto c2 = w.split(dataset, sub);
+            clear_context();
+            if (p2.size<0>() != sub.size()) why = "predict returns " + std::to_string(p2.size<0>()) + " rows";
+            for (size_t j = 0; why.empty() && j < l.size(); ++j)
+                for (tensor_size_t o = 0; o < no; ++o)
+                    if (p2.data()[static_cast<tensor_size_t>(j) * no + o] != P.data()[l[j] * no + o])
+                    {
+                        why = "sample " + std::to_string(samples(l[j])) + " predicted " + vh::hexf(P.data()[l[j] * no + o]) + " within the fit list and " +
+                              vh::hexf(p2.data()[static_cast<tensor_size_t>(j) * no + o]) + " within this list";
+                        break;
+                    }
+            if (why.empty() && c2.samples() != dataset.samples()) why = "split: cluster over " + std::to_string(c2.samples()) + " samples";
+            std::vector<uint8_t> member(static_cast<size_t>(dataset.samples()), 0U);
+            for (size_t j = 0; j < l.size(); ++j) member[static_cast<size_t>(samples(l[j]))] = 1U;
+            for (tensor_size_t sidx = 0; why.empty() && sidx < dataset.samples(); ++sidx)
+            {
+                const auto expected = member[static_cast<size_t>(sidx)] ? C.group(sidx) : tensor_size_t{-1};
+                if (c2.group(sidx) != expected)
+                    why = "split: sample " + std::to_string(sidx) + " in group " + std::to_string(c2.group(sidx)) + ", expected " + std::to_string(expected);
+            }
+            for (size_t j = 0; j < l.size(); ++j) gs += (j ? "," : "") + std::to_string(c2.group(samples(l[j])));
+        }
+        catch (const std::exception& e)
+        {
+            clear_context();
+            why = std::string("exception: ") + e.what();
+        }
+        if (!why.empty())
+        {
+            fail("ext-sublist", tag, why + " sample list [" + ids + "] positions [" + pos + "] " + wstr(w));
+            break;
+        }
+        if (is_tree || printed < 3)
+        {
+            ++printed;
+            std::printf("SUB %s | %s | %s\n", tag.c_str(), l.empty() ? "-" : pos.c_str(), l.empty() ? "-" : gs.c_str());
+        }
+    }
+}
+
 void run_case(uint64_t seed, long icase, bool thorough)
 {
     gen_t       g(seed);
@@ -1686,6 +1828,7 @@ void run_case(uint64_t seed, long icase, bool thorough)
             }
 
             check_consistency(g, x, name, crit_name(crit), *w, true);
+            check_sublists(g, x, name, crit_name(crit), *w);
             {
                 // ... and on ALL samples of the dataset: a sample that was not used for fitting can sit exactly on the fitted
                 // mid-point threshold (grids k/4, integers), where predict() and split() must still agree
@@ -1899,6 +2042,7 @@ int main(int argc, char** argv)
     const auto        seed     = vh::env_seed();
 
     ::nano::verif::g_max_threads.store(16U); // pool sizes 1..16 regardless of the machine
+    for (const int sig : {SIGSEGV, SIGBUS, SIGFPE, SIGILL, SIGABRT}) std::signal(sig, crash_handler);
 
     if (tier == "probe-dstep-empty")
     {
@@ -1949,10 +2093,10 @@ int main(int argc, char** argv)
     };
     std::printf("DONE cases=%ld fits=%ld nofits=%ld fails=%ld obs=%ld optimal_checks=%ld reproduce_checks=%ld consistency_checks=%ld "
                 "dstep_excluded=%ld scale_checks=%ld merges=%ld merged_pairs=%ld depth1_checks=%ld thread_checks=%ld missing_samples=%ld tie_columns=%ld "
-                "ext_topk=%ld ext_crit=%ld ext_ksplit=%ld ext_tree=%ld ext_treefit=%ld ext_topk_partial=%ld learners=%s kinds=%s subsets=%s nhist=%s obs_kinds=%s\n",
+                "ext_topk=%ld ext_crit=%ld ext_ksplit=%ld ext_tree=%ld ext_treefit=%ld ext_topk_partial=%ld ext_sublist=%ld ext_sublist_lists=%ld learners=%s kinds=%s subsets=%s nhist=%s obs_kinds=%s\n",
                 cnt.cases, cnt.fits, cnt.nofits, cnt.fails, cnt.obs, cnt.optimal_checks, cnt.reproduce_checks, cnt.consistency_checks,
                 cnt.dstep_excluded, cnt.scale_checks, cnt.merges, cnt.merged_pairs, cnt.depth1_checks, cnt.thread_checks, cnt.missing_samples, cnt.tie_cases,
-                ext_topk_checks, ext_crit_checks, ext_ksplit_checks, ext_tree_checks, ext_treefit_checks, ext_topk_partial,
+                ext_topk_checks, ext_crit_checks, ext_ksplit_checks, ext_tree_checks, ext_treefit_checks, ext_topk_partial, ext_sublist_checks, ext_sublist_lists,
                 hist(cnt.learners).c_str(), hist(cnt.kinds).c_str(), hist(cnt.subsets).c_str(), hist(cnt.nhist).c_str(),
                 hist(cnt.obs_kinds).c_str());
     return 0;
